@@ -10,6 +10,8 @@ type Agg struct {
 	Runs        int              `json:"runs"`
 	NonTrivial  int              `json:"nontrivial"`
 	Failing     int              `json:"failing"`
+	KnownRuns   int              `json:"known_runs"`
+	Known       map[string]int   `json:"known"`
 	Steps       int64            `json:"steps"`
 	SimNanos    int64            `json:"sim_ns"`
 	WallMicros  int64            `json:"wall_us"`
@@ -26,7 +28,7 @@ type Agg struct {
 }
 
 func NewAgg(world string) *Agg {
-	return &Agg{World: world, Shapes: map[string]int{}, KindHashes: map[string]bool{}, Probes: map[string]int{},
+	return &Agg{World: world, Shapes: map[string]int{}, KindHashes: map[string]bool{}, Probes: map[string]int{}, Known: map[string]int{},
 		Faults: map[string]int{}, Events: map[string]int{}, Net: map[string]int64{}}
 }
 
@@ -97,6 +99,10 @@ func (a *Agg) Merge(b *Agg) {
 	}
 	for k := range b.KindHashes {
 		a.KindHashes[k] = true
+	}
+	a.KnownRuns += b.KnownRuns
+	for k, v := range b.Known {
+		a.Known[k] += v
 	}
 	for k, v := range b.Probes {
 		a.Probes[k] += v
